@@ -435,7 +435,12 @@ theorem inv_step (s : St) (op : Op) (h : Inv s) : Inv (step s op).1 := by
   | run sched => exact runOnce_inv s sched h
   | drop w => exact dropElement_inv s w h
   | setSm b => exact h.of_eq rfl rfl rfl rfl
-  | disc => exact h.of_eq rfl rfl rfl rfl
+  | disc =>
+    show Inv (disconnectOnce s)
+    unfold disconnectOnce
+    split
+    · exact h.of_eq rfl rfl rfl rfl
+    · exact h
 
 theorem stepH_st (h : Hist) (op : Op) : (stepH h op).st = (step h.st op).1 := by
   cases op <;> simp [stepH, step]
@@ -857,7 +862,9 @@ theorem at_most_one_disconnect_per_op (s : St) (op : Op) :
       split <;> simp [disconnect, foldl_retire_disc]
   | drop w => simp [step, dropElement_disc]
   | setSm b => simp [step]
-  | disc => simp [step, disconnect]
+  | disc =>
+    simp only [step, disconnectOnce]
+    split <;> simp [disconnect]
 
 
 /-! ### the ghost-augmented history -/
@@ -1194,9 +1201,10 @@ theorem stepH_setSm (h : Hist) (b : Bool) :
 
 theorem stepH_disc (h : Hist) :
     stepH h .disc =
-      { st := disconnect h.st, wire := h.wire,
+      { st := disconnectOnce h.st, wire := h.wire,
         ghost := h.ghost ++ (h.st.queue.filter fun e => h.st.nextUid ≤ e.uid).map
-          fun e => (e.uid, e.data) } := rfl
+          fun e => (e.uid, e.data) } := by
+  by_cases hc : h.st.connected = true <;> simp [stepH, step, disconnectOnce, hc, disconnect]
 
 theorem hinv_send (h : Hist) (o : Owner) (d : Bytes) (hi : HInv h) : HInv (stepH h (.send o d)) := by
   rw [stepH_send]
@@ -1210,8 +1218,14 @@ theorem hinv_setSm (h : Hist) (b : Bool) (hi : HInv h) : HInv (stepH h (.setSm b
 
 theorem hinv_disc (h : Hist) (hi : HInv h) : HInv (stepH h .disc) := by
   rw [stepH_disc]
-  exact hinv_append h (disconnect h.st) [] hi (hi.inv.of_eq rfl rfl rfl rfl)
-    (by simp [disconnect]) (by simp) (Nat.le_refl _) rfl
+  by_cases hc : h.st.connected = true
+  · have e : disconnectOnce h.st = disconnect h.st := by simp [disconnectOnce, hc]
+    rw [e]
+    exact hinv_append h (disconnect h.st) [] hi (hi.inv.of_eq rfl rfl rfl rfl)
+      (by simp [disconnect]) (by simp) (Nat.le_refl _) rfl
+  · have e : disconnectOnce h.st = h.st := by simp [disconnectOnce, hc]
+    rw [e]
+    exact hinv_append h h.st [] hi hi.inv (by simp) (by simp) (Nat.le_refl _) rfl
 
 theorem hinv_run (h : Hist) (sched : List Accept) (hi : HInv h) : HInv (stepH h (.run sched)) := by
   rw [stepH_run]
